@@ -1179,8 +1179,10 @@ class C16(PropertyCheck):
         "QipVerif.C16.C16_counterexample_state_getter",
     ]
     technique = ("Lean 4 proof over a heap/world model of the mutable attributes (CircuitSimulator, GateCompiler, "
-                 "ModelProcessor; classical-bit lists as heap cells so that aliasing is representable) + history "
-                 "correspondence with deep snapshots + independent purity/repeat/fresh-object oracle")
+                 "ModelProcessor; classical-bit lists, gate objects with their targets/controls lists, pulse objects with "
+                 "their noise-element lists as heap cells so that aliasing is representable) + history correspondence "
+                 "with deep snapshots + independent purity/repeat/fresh-object oracle with a process-fresh reference "
+                 "(forked child of a pristine server process) for module-level state")
     level_text = ("Lean 4 theorems over a heap/world model whose fields are exactly the mutable attributes of the modelled "
                   "objects (CircuitSimulator.cbits/_state/_probability/_op_index/_measure_results/_measure_ind, "
                   "GateCompiler.args/global_phase, processor pulses/global_phase; classical-bit lists as heap cells so that "
@@ -1194,7 +1196,15 @@ class C16(PropertyCheck):
                   "list with their argument, so no in-place change of the result changes the argument "
                   "(transform_result_independent); noise objects keep their attributes and answer like fresh ones "
                   "(noise_fresh_equivalent); the coefficient padding stored back by get_qobjevo is the same function of "
-                  "time (pulse_padding_same_function, on the C14 model). "
+                  "time (pulse_padding_same_function, on the C14 model); pulse objects are cells holding references to "
+                  "their coherent_noise / lindblad_noise lists, get_noisy_pulses / process_noise with the copies they make "
+                  "read from the source: if a deep copy is made at either site then for ALL histories of noisy evaluations "
+                  "with ANY noise objects (ControlAmpNoise, RandomNoise, RelaxationNoise, DecoherenceNoise, ZZCrossTalk, user "
+                  "subclasses; IndexError included) the held pulses keep ideal element and noise-list contents "
+                  "(noisy_pulses_unchanged), the value returned is a function of the held pulses' values, the noise objects "
+                  "and the generator state only, hence equal on repetition and on a fresh processor (noisy_fresh_equivalent, "
+                  "noisy_repeat_equal), and everything returned is new (noisy_result_new); with both copies dropped the "
+                  "noise elements accumulate 0,1,2 (C16_counterexample_noisy_pulses_accumulate). "
                   "The model is tied to the code on every run by histories of up to 8 public calls on shared objects with "
                   "deep (vars()-level, arrays by value) snapshots of every argument before and after every call.")
     level_note = ("Trusted: Lean kernel (propext, Classical.choice, Quot.sound); Model/Sim.lean + Model/Heap.lean as the list of "
@@ -1205,22 +1215,34 @@ class C16(PropertyCheck):
                   "unrepaired behaviours are refuted by kernel-checked counter-examples replayed on the implementation. "
                   "repeat_equal/fresh_equivalent hold for every deterministic call whatever the numpy RNG state (such calls are "
                   "proved never to read it); for unconstrained runs the RNG state is an explicit input (…_rng). "
-                  "Processor.run_state (numerical solver) is exercised only as a query that must leave pulses, phases and "
-                  "compiler state unchanged.")
+                  "Processor.run_state (numerical solver) is exercised only as a query that must leave pulses, phases, "
+                  "compiler state, noise objects and its own arguments (c_ops list, options dict) unchanged and return equal "
+                  "final states on repetition. Noise elements are tokens in Model/SimPulse.lean (which list of which pulse "
+                  "object receives which element, in which order); operators and coefficient arrays of the elements are "
+                  "compared by the snapshots only. Module-level state of the package (tables, caches) is not modelled: it is "
+                  "exercised by repeated calls in ONE process and compared with a NEW process (oracle level). Three defects "
+                  "found by the audit of aliased / module-level state are proposed as fixes/C16-6..8; until they are in the "
+                  "tree their random streams are off (the evidence notes say which reproduce).")
     trusted_base = [
         "Lean 4.33 kernel; axioms propext, Classical.choice, Quot.sound",
         "Model/Sim.lean, Model/Heap.lean as a description of which attributes each public call writes (validated by "
         "this correspondence, not proved); mutation inside numpy buffers of QuTiP objects is visible only to the deep "
         "snapshots of the correspondence",
-        "py/props/_simlib.py, py/props/c16.py (harness, snapshot function, scripted np.random.choice)",
+        "Model/SimPulse.lean as a description of which list objects get_noisy_pulses / process_noise / the noise classes "
+        "append to (validated by the pulse-noise correspondence, copies read from the source by AST and confirmed by "
+        "counting deep copies)",
+        "py/props/_simlib.py, py/props/c16.py, _c16_snap.py, _c16_pulses.py, _c16_args.py, _c16_fresh.py (harness, snapshot "
+        "function, scripted np.random.choice / rand_gen, fork-based process-fresh reference)",
     ]
     assumptions = ["Processor.run_state (numerical solver) is exercised as a pure query where usable (on trees where it still "
                    "evaluates qutip.Options it is skipped)"]
     rule = ("case = one history (<= 8 public calls) on shared objects: simulator calls (run, run_statistics, initialize, "
             "step, state) interleaved with circuit queries (compute_unitary, propagators, resolve_gates, adjacent_gates, "
             "to_chain_structure, reverse_circuit, schedule, qasm export, text drawing), or processor calls "
-            "(load_circuit with default / user compiler, compile with args, pulse queries); non-trivial = at least two "
-            "calls touching the same object")
+            "(load_circuit with default / user compiler, compile with args, pulse queries), or 2-5 noisy evaluations "
+            "(get_noisy_pulses, get_qobjevo(noisy=True), run_state) on one processor carrying 1-4 noise objects of every "
+            "shipped class, or all circuit queries on a full-library circuit (half of them after the same queries on a "
+            "sibling circuit with the same gate names); non-trivial = at least two calls touching the same object")
 
     # ---------------------------------------------------------------------------------
     def correspondence(self, ctx, res):
